@@ -20,6 +20,7 @@ CONSTANTS
   M_DQEmptiesBatch = TRUE
   M_CommitMax = TRUE
   M_BusyTakesAll = TRUE
+  M_SpawnFlushesBusy = TRUE
   M_RefusedBackOnce = TRUE
   M_TimerFlushesAny = TRUE
 VIEW view
